@@ -15,7 +15,7 @@ func fmtRules() []*Rule {
 		{ID: "FMT-spill", Props: []string{"C14", "C01", "C02", "C03", "C04", "C13"}, Min: 10,
 			Doc: "local-payload computation equals fileformat2 §1.6: X = U−35 (table leaf) / ((U−12)·64/255)−23 (index cells, both kinds identical), M = ((U−12)·32/255)−23, K = M+((P−M) mod (U−4)), choice P≤X→P, K≤X→K, else M; overflow pointer = 4 bytes after the local part",
 			Run: runSpill},
-		{ID: "FMT-overflow", Props: []string{"C14", "C01", "C02", "C08", "C13", "C03", "C18", "C04", "C17"}, Min: 4,
+		{ID: "FMT-overflow", Props: []string{"C14", "C01", "C02", "C08", "C13", "C03", "C18", "C04", "C17", "C19"}, Min: 4,
 			Doc: "overflow page layout: next pointer = big-endian bytes 0..3, content from byte 4 to the end of the page; whole pages are appended (so the append cannot write into the cached page's spare capacity); result cut to the declared length",
 			Run: runOverflow},
 		{ID: "REC-table", Props: []string{"C14", "C01", "C02", "C03", "C04", "C13"}, Min: 14,
